@@ -243,6 +243,13 @@ def rule_mergelookup(ctx):
                         t0_ok = m_ok and (any(x.op == "sub" and tm.is_const(x.a[1], 0) and x.a[0].op == "iter" for x in tm.walk(mask.a[2])) or (mask.a[2].op == "iter" and mask.a[2].a[0].op == "sub" and mask.a[2].a[0].a[1].op == "slice" and tm.show(mask.a[2].a[0].a[1], 2) == ":-1:" and mask.a[2].a[0].a[0].op == "call" and call_name(mask.a[2].a[0].a[0]) == "np.unique"))
                         good = m_ok and r_ok and t0_ok
                         why = "label of the last %s interval with start <= t0 (t0 = start of the refined interval)" % side
+        if not good:
+            for val in cands:
+                for z in tm.walk(val) if val is not None else ():
+                    if z.op == "call" and z.a[0].op == "class":
+                        # an instance of a class defined in the module performs the lookup: objects with their own
+                        # methods are outside what the summaries model
+                        raise AnalysisError(R, "merge_labeled_intervals: the %s label is looked up through an instance of %s; user-defined classes are not modelled" % (side, z.a[0].a[0]))
         yield ob(R, f, "util.merge_labeled_intervals:%s-lookup" % side, good, why)
 
 
